@@ -76,6 +76,17 @@ func wideSpec() J {
 			"x-a": 1, "x-b": 2, "x-c": 3, "x-d": 4, "x-e": 5, "x-f": 6, "x-g": 7, "x-h": 8}
 		paths[fmt.Sprintf("/wide/%02d", i)] = J{"get": op}
 	}
+	// parameters of different locations whose Go names meet (the generator renames them per location)
+	for i, set := range [][][2]string{
+		{{"query", "timeout"}, {"header", "Timeout"}}, {{"header", "user_id"}, {"query", "user-id"}, {"query", "userId"}}, {{"query", "id"}, {"header", "id"}, {"header", "ID"}},
+		{{"query", "a_b"}, {"header", "a-b"}, {"header", "A B"}, {"query", "aB"}}, {{"header", "x-rate"}, {"query", "xRate"}, {"query", "X_Rate"}},
+	} {
+		var params []any
+		for _, ln := range set {
+			params = append(params, J{"name": ln[1], "in": ln[0], "type": "string"})
+		}
+		paths[fmt.Sprintf("/meet/%d", i)] = J{"get": J{"operationId": fmt.Sprintf("meet%d", i), "parameters": params, "responses": J{"200": J{"description": "ok"}}}}
+	}
 	defs := d["definitions"].(J)
 	for i := 0; i < 12; i++ {
 		props := J{}
